@@ -17,9 +17,17 @@ structure IsPre (R : St α → St α → Prop) : Prop where
   refl : ∀ s, R s s
   trans : ∀ {a b c}, R a b → R b c → R a c
 
-/-- partial correctness of `x` started in `s`. -/
+/-- what an error raised in state `s'` must satisfy: a `MissingFiniteBounds` error carries exactly
+`varsWithoutFiniteBounds e` (at the bounds map of that state) of the expression `e` being lowered. -/
+def ErrOK (s' : St α) : LinErr → Prop
+  | .missingFiniteBounds vs => ∃ e : Exp α, vs = varsWithoutFiniteBounds e s'.bounds
+  | _ => True
+
+/-- partial correctness of `x` started in `s`: on success the states are related by `R` and the value
+satisfies `post`; on failure the error was raised in a state related to `s` by `R` and satisfies `ErrOK`. -/
 def SpAt (R : St α → St α → Prop) (s : St α) (x : M α β) (post : β → Prop) : Prop :=
-  ∀ a s', x s = .ok (a, s') → R s s' ∧ post a
+  (∀ a s', x s = .ok (a, s') → R s s' ∧ post a) ∧
+  (∀ err, x s = .error err → ∃ s', R s s' ∧ ErrOK s' err)
 
 /-- partial correctness of `x` from every state. -/
 def Sp (R : St α → St α → Prop) (x : M α β) (post : β → Prop) : Prop := ∀ s, SpAt R s x post
@@ -39,6 +47,7 @@ variable {R : St α → St α → Prop}
 
 theorem pure (hR : IsPre R) {s : St α} {a : β} {post : β → Prop} (h : post a) :
     SpAt R s (pure a : M α β) post := by
+  refine ⟨?_, fun err he => by cases he⟩
   intro a' s' he
   have : (Except.ok (a, s) : Except LinErr (β × St α)) = .ok (a', s') := he
   injection this with h1
@@ -46,37 +55,61 @@ theorem pure (hR : IsPre R) {s : St α} {a : β} {post : β → Prop} (h : post 
   subst ha; subst hs
   exact ⟨hR.refl _, h⟩
 
-theorem fail {s : St α} {e : LinErr} {post : β → Prop} : SpAt R s (fail e : M α β) post := by
-  intro a s' he
-  cases he
+theorem fail (hR : IsPre R) {s : St α} {e : LinErr} {post : β → Prop} (h : ErrOK s e) :
+    SpAt R s (fail e : M α β) post := by
+  refine ⟨fun a s' he => (by cases he), ?_⟩
+  intro err he
+  have : (Except.error e : Except LinErr (β × St α)) = .error err := he
+  injection this with h1
+  subst h1
+  exact ⟨s, hR.refl _, h⟩
 
 theorem bind (hR : IsPre R) {s : St α} {x : M α β} {f : β → M α γ} {mid : β → Prop} {post : γ → Prop}
     (hx : SpAt R s x mid) (hf : ∀ a, mid a → ∀ s1, SpAt R s1 (f a) post) :
     SpAt R s (x >>= f) post := by
-  intro c s' he
-  rw [bind_run] at he
-  cases hxs : x s with
-  | error e => rw [hxs] at he; cases he
-  | ok p =>
-    obtain ⟨a, s1⟩ := p
-    rw [hxs] at he
-    obtain ⟨h1, hm⟩ := hx a s1 hxs
-    obtain ⟨h2, hp⟩ := hf a hm s1 c s' he
-    exact ⟨hR.trans h1 h2, hp⟩
+  constructor
+  · intro c s' he
+    rw [bind_run] at he
+    cases hxs : x s with
+    | error e => rw [hxs] at he; cases he
+    | ok p =>
+      obtain ⟨a, s1⟩ := p
+      rw [hxs] at he
+      obtain ⟨h1, hm⟩ := hx.1 a s1 hxs
+      obtain ⟨h2, hp⟩ := (hf a hm s1).1 c s' he
+      exact ⟨hR.trans h1 h2, hp⟩
+  · intro err he
+    rw [bind_run] at he
+    cases hxs : x s with
+    | error e =>
+      rw [hxs] at he
+      injection he with he
+      subst he
+      exact hx.2 e hxs
+    | ok p =>
+      obtain ⟨a, s1⟩ := p
+      rw [hxs] at he
+      obtain ⟨h1, hm⟩ := hx.1 a s1 hxs
+      obtain ⟨s', h2, hp⟩ := (hf a hm s1).2 err he
+      exact ⟨s', hR.trans h1 h2, hp⟩
 
 theorem get_bind {s : St α} {f : St α → M α γ} {post : γ → Prop}
-    (h : SpAt R s (f s) post) : SpAt R s (get >>= f) post := by
-  intro c s' he
-  exact h c s' he
+    (h : SpAt R s (f s) post) : SpAt R s (get >>= f) post :=
+  ⟨fun c s' he => h.1 c s' he, fun err he => h.2 err he⟩
 
 theorem set_bind (hR : IsPre R) {s s2 : St α} {f : PUnit → M α γ} {post : γ → Prop}
     (h1 : R s s2) (h : SpAt R s2 (f PUnit.unit) post) : SpAt R s (set s2 >>= f) post := by
-  intro c s' he
-  obtain ⟨h2, hp⟩ := h c s' he
-  exact ⟨hR.trans h1 h2, hp⟩
+  constructor
+  · intro c s' he
+    obtain ⟨h2, hp⟩ := h.1 c s' he
+    exact ⟨hR.trans h1 h2, hp⟩
+  · intro err he
+    obtain ⟨s', h2, hp⟩ := h.2 err he
+    exact ⟨s', hR.trans h1 h2, hp⟩
 
 theorem set {s s2 : St α} {post : PUnit → Prop}
     (h1 : R s s2) (hp : post PUnit.unit) : SpAt R s (set s2 : M α PUnit) post := by
+  refine ⟨?_, fun err he => by cases he⟩
   intro c s' he
   have : (Except.ok (PUnit.unit, s2) : Except LinErr (PUnit × St α)) = .ok (c, s') := he
   injection this with h
@@ -86,6 +119,7 @@ theorem set {s s2 : St α} {post : PUnit → Prop}
 
 theorem modify {s : St α} {g : St α → St α} {post : PUnit → Prop}
     (h1 : R s (g s)) (hp : post PUnit.unit) : SpAt R s (modify g : M α PUnit) post := by
+  refine ⟨?_, fun err he => by cases he⟩
   intro c s' he
   have : (Except.ok (PUnit.unit, g s) : Except LinErr (PUnit × St α)) = .ok (c, s') := he
   injection this with h
@@ -94,7 +128,7 @@ theorem modify {s : St α} {g : St α → St α} {post : PUnit → Prop}
   exact ⟨h1, hp⟩
 
 theorem weaken {s : St α} {x : M α β} {p q : β → Prop} (h : SpAt R s x p) (hpq : ∀ a, p a → q a) :
-    SpAt R s x q := fun a s' he => ⟨(h a s' he).1, hpq a (h a s' he).2⟩
+    SpAt R s x q := ⟨fun a s' he => ⟨(h.1 a s' he).1, hpq a (h.1 a s' he).2⟩, h.2⟩
 
 /-- `for x in xs do body` (any loop whose body preserves `R`). -/
 theorem forIn (hR : IsPre R) {δ : Type} (xs : List δ) (init : PUnit) (body : δ → PUnit → M α (ForInStep PUnit))
